@@ -29,11 +29,12 @@ theorem short_form_rejected (ns did : String) (h : ∀ a b c d, parseDID ns did 
     · rfl
 
 /-- the initial state is the exact unpadded base64url encoding of the canonical JSON of the
-    request it denotes: whitespace, member order, padding, non-zero trailing bits and line breaks
-    are all refused because the re-encoding is compared with the string itself -/
+    request it denotes — suffix data, delta and, optionally, the type `create`, nothing else:
+    whitespace, member order, padding, non-zero trailing bits, line breaks, further members and
+    any other type value are all refused because the re-encoding is compared with the string itself -/
 theorem initial_state_canonical (initial : String) (c : Parser.CreateReq) (h : parseInitialState initial = some c) :
     ∃ j ty canon, Parser.decodeCreate j = some c ∧ transformValue (createRequestJson ty c) = some canon ∧
-      initial = b64EncodeStr (bytesOfString (String.ofList canon)) := by
+      initial = b64EncodeStr (bytesOfString (String.ofList canon)) ∧ (ty = "" ∨ ty = "create") := by
   unfold parseInitialState at h
   cases hb : b64DecodeStr initial with
   | none => simp [hb] at h
@@ -55,9 +56,11 @@ theorem initial_state_canonical (initial : String) (c : Parser.CreateReq) (h : p
           | some canon =>
             simp only [hc] at h
             by_cases he : b64EncodeStr (bytesOfString (String.ofList canon)) = initial
-            · simp only [he, if_true, Option.some.injEq] at h
-              subst h
-              exact ⟨j, ty, canon, hd, hc, he.symm⟩
+            · by_cases hty : ty = "" ∨ ty = "create"
+              · simp only [he, hty, if_true, Option.some.injEq] at h
+                subst h
+                exact ⟨j, ty, canon, hd, hc, he.symm, hty⟩
+              · simp [he, hty] at h
             · simp [he] at h
 
 /-- what every resolvable DID looks like: own namespace and a colon; a last segment that is the
